@@ -255,6 +255,8 @@ pub(crate) enum ExprErrorKind {
     UnexpectedValueForSignal(String, OutputValue),
     #[error("Division by zero")]
     DivisionByZero,
+    #[error("Cannot draw a random number below {0}")]
+    EmptyRandomRange(i64),
 }
 
 /// Could not construct static iterator
